@@ -359,7 +359,9 @@ def fastq_readers_agree(ctx, rule):
         lp = [st for st in f.body if isinstance(st, ast.For)]
         ctx.need(len(lp) == 1, f"the line loop of {q}")
         loops.append(lp[0])
-    tracked = machine.assigned_names(loops[0]) & machine.assigned_names(loops[1])
+    # (the state: names both loops assign AND read - a value nobody reads is not state)
+    read_ = [{x.id for x in ast.walk(lp_) if isinstance(x, ast.Name) and isinstance(x.ctx, ast.Load)} for lp_ in loops]
+    tracked = machine.assigned_names(loops[0]) & machine.assigned_names(loops[1]) & read_[0] & read_[1]
     ctx.need({"in_sequence", "in_scores", "seq_len", "score_len"} <= tracked, "the shared parser state of the two FASTQ readers")
     ok, diff = machine.same_machines(loops[0].body, loops[1].body, tracked)
     ctx.ob(rule, FASTQ, "FastqFile.read_iter", f"_find_entries and read_iter step {sorted(tracked)} alike", ok,
